@@ -4,6 +4,7 @@ import (
 	"encoding/json"
 	"flag"
 	"fmt"
+	"go/types"
 	"golang.org/x/tools/go/ssa"
 	"os"
 	"path/filepath"
@@ -19,12 +20,13 @@ type PropCfg struct {
 	ID       string
 	Families []string // obligation families generated for the functions under contract
 	// Sweep: additional functions (by key prefix) verified without contract for the given families
-	SweepPrefixes []string
-	SweepFamilies []string
-	SweepExclude  []string
-	SweepGuarded  bool   // also verify (family LOCK) every function that touches a guarded_by global
-	Replay        string // decoder name
-	Composition   string // the unchecked step from per-function contracts to the property
+	SweepPrefixes   []string
+	SweepFamilies   []string
+	SweepExclude    []string
+	SweepGuarded    bool   // also verify (family LOCK) every function that touches a guarded_by global
+	SweepSharedErrs bool   // enumerate package-level *PanErr variables: each must be declared (shared_errors)
+	Replay          string // decoder name
+	Composition     string // the unchecked step from per-function contracts to the property
 }
 
 var propCfgs = map[string]*PropCfg{}
@@ -94,6 +96,7 @@ type oblReport struct {
 	Detail  string            `json:"detail,omitempty"`
 	Model   map[string]string `json:"model,omitempty"`
 	Confirm string            `json:"confirmed_by,omitempty"`
+	Tried   string            `json:"tried,omitempty"`
 }
 
 func verifRoot() string {
@@ -339,7 +342,7 @@ func cmdCheck(args []string) int {
 	vacuousFns := map[string][]string{}
 	handle := func(fnKey string, inBaseline bool, o *Obligation) {
 		r := o.Result
-		rep := oblReport{Name: o.Name, Family: o.Family, Status: r.Status, Solver: r.Solver, Seconds: r.Seconds, Pos: o.Pos, Detail: o.Detail, Confirm: r.Confirm}
+		rep := oblReport{Name: o.Name, Family: o.Family, Status: r.Status, Solver: r.Solver, Seconds: r.Seconds, Pos: o.Pos, Detail: o.Detail, Confirm: r.Confirm, Tried: strings.Join(r.Tried, " ")}
 		solverTime += r.Seconds
 		if o.Family == "VACUITY" {
 			// passes unless the background+requires is refuted
@@ -463,6 +466,42 @@ func cmdCheck(args []string) int {
 		nObl++ // the enumeration obligation itself
 		if len(unguarded) == 0 {
 			nDis++
+		}
+	}
+	if cfg.SweepSharedErrs {
+		// a package-level error object outlives an evaluation and appendStackTrace writes the error it is given:
+		// every such object must be declared (and then has its own obligation that its trace is left alone)
+		nObl++
+		var undeclared []string
+		for _, pk := range sortedKeys(w.SSAPkgs) {
+			sp2 := w.SSAPkgs[pk]
+			if !w.isRepoPkg(sp2.Pkg.Path()) {
+				continue
+			}
+			for _, mn := range sortedKeys(sp2.Members) {
+				g, ok := sp2.Members[mn].(*ssa.Global)
+				if !ok {
+					continue
+				}
+				if types.TypeString(g.Type(), nil) != "**"+repoMod+"/object.PanErr" {
+					continue
+				}
+				if !sp.SharedErrs[pk+"."+g.Name()] {
+					undeclared = append(undeclared, pk+"."+g.Name())
+				}
+			}
+		}
+		if len(undeclared) == 0 {
+			nDis++
+		}
+		for _, gname := range undeclared {
+			nViol++
+			rp := filepath.Join(replayDir, "SHARED.undeclared-error-object."+sanitizeFile(gname)+".json")
+			b, _ := json.MarshalIndent(map[string]string{"property": id, "obligation": "SHARED.undeclared-error-object " + gname,
+				"detail": "package-level *object.PanErr variable: one error object shared by every evaluation of the process; appendStackTrace appends to the error it is given, so its stack trace would carry the source lines of earlier programs. Not declared under shared_errors (where it would get its own leave-alone obligation)"}, "", " ")
+			os.WriteFile(rp, b, 0o644)
+			fmt.Printf("  failed obligation SHARED.undeclared-error-object %s :: package-level error object shared by all evaluations\n", gname)
+			violLines = append(violLines, fmt.Sprintf("VIOLATION property=%s replay=%s no-failing-input-found", id, rp))
 		}
 	}
 	// global invariants: decided by executing package initialisation
